@@ -359,6 +359,9 @@ def files(tier):
 def run(ctx):
     from ..run import merge
     items = [(k, o, ctx.seed) for k, o in files(ctx.tier)] + [('bigchunk', (), ctx.seed)]
+    # every channel holds exactly one value per chunk (a file logged one sample per write), contiguous: only the requested
+    # channel's bytes may be fetched, whatever the reader makes of the row-like layout
+    items += [('ones', o, ctx.seed) for o in (((1, 3),), ((1, 2), (1, 3)), ((1, 3), 'abs', (1, 2)), ((1, 3), (2, 2)), ((1, 1), (1, 3), 'nod', (1, 2)))]
     items.sort(key=lambda it: -sum((o[0] * o[1]) if isinstance(o, tuple) else 0 for o in it[1]))
     m = merge(ctx.map(run_file, items))
     c = m['counters']
